@@ -364,6 +364,15 @@ class ResponseHandler(BaseProtocol, DataQueue[tuple[RawResponseMessage, StreamRe
 
         payload: StreamReader | None = None
         for message, payload in messages:
+            if self._idle:
+                # The exchange ended while this very segment was being parsed and
+                # the connection went back to the pool: what follows in the
+                # segment belongs to no request.
+                self._should_close = True
+                if self.transport is not None:
+                    self.transport.close()
+                return
+
             if message.should_close:
                 self._should_close = True
 
